@@ -5020,7 +5020,11 @@ class PyCdlib:
                         if child.file_ident == iso9660_name:
                             # Python 3.4 doesn't support substitution with a byte
                             # array, so we do it as a string and encode to bytes.
-                            iso9660_name = name + ('%03d' % (index)).encode()
+                            suffix = ('%03d' % (index)).encode()
+                            # The generated name must obey the length rule of
+                            # the interchange level as well.
+                            maxlen = {1: 8, 2: 207, 3: 207}.get(self.interchange_level, len(name) + len(suffix))
+                            iso9660_name = name[:maxlen - len(suffix)] + suffix
                             index += 1
                             break
                     else:
